@@ -122,4 +122,25 @@ theorem divexact_1_val (n : List Nat) (d : Nat) (hn : Limbs n) (hne : n ≠ []) 
 example : divexact_1 [B - 12, 11] 12 = [B - 1, 0] := by decide
 example : divexact_1 [B - 7, 6] 7 = [B - 1, 0] := by decide
 
+/-- mpn_divexact_by3c (assembly = mpn/generic/divexact_by3c.c): x + ret·B^n = 3·q + c with ret ∈ {0,1,2}
+    ("(xp,n) = (qp,n)*3 - ret*B^n", with the carry-in c of a previous block), for every length. -/
+theorem divexact_by3c_val (x : List Nat) (c : Nat) (hx : Limbs x) (hc : c ≤ 2) :
+    val x + (divexact_by3c x c).2 * B ^ x.length = 3 * val (divexact_by3c x c).1 + c ∧
+    (divexact_by3c x c).2 ≤ 2 ∧ Limbs (divexact_by3c x c).1 ∧ (divexact_by3c x c).1.length = x.length :=
+  divexact_by3c_spec x c hx hc
+
+example : divexact_by3c [1, 1] 0 = ([0xAAAAAAAAAAAAAAAB, 0x5555555555555555], 1) := by decide
+example : divexact_by3c [B - 3, 2] 0 = ([B - 1, 0], 0) := by decide
+
+/-- mpn_modexact_1c_odd (assembly, modelled by its dataflow) as documented in
+    mpn/generic/modexact_1c_odd.c / gmp-impl.h: r·B^k + a − c = q·d with k = size, 0 ≤ r ≤ d, and
+    r < d whenever c < d; for every length, every odd d and every carry-in c. -/
+theorem modexact_1c_odd_val (a : List Nat) (d c : Nat) (ha : Limbs a) (hne : a ≠ []) (hodd : d % 2 = 1)
+    (hdB : d < B) (hc : c < B) :
+    ∃ q, val a + modexact_1c_odd a d c * B ^ a.length = q * d + c ∧
+      modexact_1c_odd a d c ≤ d ∧ (c < d → modexact_1c_odd a d c < d) :=
+  modexact_1c_odd_spec a d c ha hne hodd hdB hc
+
+example : modexact_1c_odd [10, 0] 7 0 = 1 := by decide
+
 end Mpir.DivWord
